@@ -32,8 +32,8 @@ def gen(rng, tier):
                 for w2 in g4:
                     for opk in range(4):
                         out.append(Case("fuse", ty, "arr", "own", [2, opk, 0], flat_op(w1) + flat_op(w2), tag="grid4_exhaustive"))
-        for n in (2, 3, 4):
-            for i in range(nrand):
+        for n in (2, 3, 4, 5, 7):
+            for i in range(nrand if n <= 4 else max(8, nrand // 4)):
                 den = rng.choice([4, 8, 16, 64])
                 k1 = rng.choice([None, None, None, "part", "part", "dog", "vac"])
                 w1 = G.grid_opinion(rng, n, den, k1)
